@@ -19,19 +19,28 @@ from . import common as C
 from . import meshgen as G
 
 PROP = 'C11'
-LEAN_MODULES = ['Femio.Props.C11']
+LEAN_MODULES = ['Femio.Props.C11', 'Femio.Props.C11Modes']
 THEOREMS = []          # filled below (kept next to the explanation of each group)
 PARTIAL = [
-    'polyhedron centroid kernel: linearity proved (C11_polyC_linear); translation invariance for closed polyhedra is proved '
-    'for the fan kernel only (C11_polyFan_translate), for the centroid kernel it is checked by the oracle',
+    'polyhedron kernels under translations: proved for the fan AND the centroid kernel (C11_polyFan_translate, C11_polyC_shift / '
+    'C11_polyC_translate / C11_polyC_translate_rat) under the hypothesis "the fan area vectors of the faces sum to zero", which '
+    'holds identically for the tet / hex / prism / pyr face tables (C11_face_tables_closed); that an arbitrary user-supplied '
+    'face list is closed is a hypothesis, not a theorem',
     'C11_storage_perm_mixed is a theorem about Cfg.fixed; the current tree implements Cfg.upstream (finding C11-mixed-binding, '
     'C11_mixed_counterexample_upstream)',
     'areas: theorems are about the area vectors / radicands (area = sum sqrt(q) / den); sqrt itself, float rounding, the float32 '
     'accumulators and LAPACK det are runtime, covered by the tolerance of the P-tie',
     'generate_random_mesh (scipy Delaunay) is exercised by the oracle only',
-    'modes agree on straight planar-faced NON-affine cells (truncated cones; obliquely cut prisms / hexes with non-parallel '
-    'end faces): oracle only; the theorems C11_*_modes_agree_affine '
-    'cover affine cells (parallelepiped, triangle prism, pyramid over a parallelogram, parallelogram)',
+    'modes agree on straight planar-faced NON-affine cells: now theorems over any commutative ring, planarity = one hypothesis '
+    'det(b-a, c-a, d-a) = 0 per quad face of the face table (C11_hex_modes_agree_planar [6 faces], C11_prism_modes_agree_planar '
+    '[3], C11_pyr_modes_agree_planar [1]; the value is the face-fan volume the oracle calls `exact`: C11_hex_planar_exact, '
+    'C11_volume_hex_planar, C11_volume_prism_pyr_planar; unconditional defect identities C11_*_lin_centroid_defect / '
+    '_lin_fan_defect; false without planarity: C11_hex_modes_disagree_nonplanar, C11_prism_pyr_modes_disagree_nonplanar). '
+    'Hex "gaussian": with the EXACT abscissa (3 g^2 = 1) it equals "centroid" on every hex (C11_hexGauss_eq_centroid) hence all '
+    'modes on planar-faced hexes (C11_hexGauss_modes_agree_planar); with the literal 0.5773502692 of the code it is exact only '
+    'on affine cells (C11_hex_modes_agree_affine) and provably NOT exact otherwise (C11_gaussP_inexact: 3 g^2 - 1 ~ 3.6e-11, '
+    'C11_hexGauss_centroid_defect, C11_hexGauss_literal_inexact) - that the deviation stays below the tolerance is oracle only, '
+    'as are float rounding and the float32 accumulators; the shell (area) modes on non-affine planar quads are oracle only',
 ]
 RULE = ('(P) per kernel x mode x type N disjoint elements (half: independent random points of the grid {k 2^-16 : |k| <= 2^19}^3, '
         'half: jittered / exact affine images of the reference cell), arbitrary ids, shuffled storage, evaluated by real femio '
@@ -889,6 +898,31 @@ THEOREMS += [
     'C11_brick_count',
     'C11_brick_positive',
     'C11_brick_sum',
+]
+# Props/C11Modes.lean: polyhedron centroid kernel under translations; modes agree on planar-faced (non-affine) cells
+THEOREMS += [
+    'C11_polyC_shift',
+    'C11_polyC_translate',
+    'C11_polyC_translate_rat',
+    'C11_face_tables_closed',
+    'C11_hex_lin_centroid_defect',
+    'C11_hex_lin_fan_defect',
+    'C11_hexGauss_centroid_defect',
+    'C11_prism_lin_centroid_defect',
+    'C11_prism_lin_fan_defect',
+    'C11_pyr_lin_centroid_defect',
+    'C11_hex_modes_agree_planar',
+    'C11_hexGauss_eq_centroid',
+    'C11_hexGauss_modes_agree_planar',
+    'C11_hex_planar_exact',
+    'C11_prism_modes_agree_planar',
+    'C11_pyr_modes_agree_planar',
+    'C11_volume_hex_planar',
+    'C11_volume_prism_pyr_planar',
+    'C11_hex_modes_disagree_nonplanar',
+    'C11_prism_pyr_modes_disagree_nonplanar',
+    'C11_gaussP_inexact',
+    'C11_hexGauss_literal_inexact',
 ]
 
 
